@@ -34,12 +34,14 @@ def rundir(prop):
     return d
 
 
+import itertools
+_META_SEQ = itertools.count()
 _TLC_STATS = re.compile(r'(\d+) states generated, (\d+) distinct states found')
 
 
 def tlc(module, cfg, workdir, env=None, workers=8, extra=None, timeout=1500, xmx='8g', deadlock=None, xss='64m'):
     """Run TLC on spec/<module>.tla with spec/<cfg>. Returns dict(out, generated, distinct, rc)."""
-    meta = os.path.join(workdir, 'meta-%s-%d' % (cfg.replace('.cfg', ''), int(time.time() * 1000) % 100000000))
+    meta = os.path.join(workdir, 'meta-%s-%d-%d' % (cfg.replace('.cfg', ''), int(time.time() * 1000) % 100000000, next(_META_SEQ)))
     cmd = ['java', '-XX:+UseParallelGC', '-Xmx' + xmx, '-Xss' + xss, '-cp', JAVA_CP, 'tlc2.TLC',
            '-workers', str(workers), '-metadir', meta, '-noGenerateSpecTE', '-config', cfg]
     if extra:
@@ -227,20 +229,31 @@ def validate(trace_module, cfg, trace_path, workdir, workers=8, env=None, timeou
         if cur:
             cur.close()
     verdicts, total = [], None
-    for part in parts:
+
+    def one(part, nworkers):
         e = {'TRACE': part}
         if env:
             e.update(env)
-        res = tlc(trace_module, cfg, workdir, env=e, workers=workers, timeout=timeout, xmx='12g')
+        res = tlc(trace_module, cfg, workdir, env=e, workers=nworkers, timeout=timeout, xmx='12g')
         tlc_ok(res, 'trace validation ' + trace_module)
+        if part != trace_path:
+            os.unlink(part)
+        return res
+
+    if len(parts) == 1:
+        results = [one(parts[0], workers)]
+    else:
+        # several pieces at a time (each TLC run holds its piece in memory: 3 x 12g)
+        from concurrent.futures import ThreadPoolExecutor
+        with ThreadPoolExecutor(max_workers=3) as ex:
+            results = list(ex.map(lambda pt: one(pt, max(4, workers // 3)), parts))
+    for res in results:
         verdicts += printed(res, 'V')
         if total is None:
             total = res
         else:
             for k in ('generated', 'distinct', 'wall'):
                 total[k] += res[k]
-        if part != trace_path:
-            os.unlink(part)
     return verdicts, total
 
 
